@@ -170,7 +170,9 @@ static int r1(int c, char **v, char *o, int n) { return record(1, c, v, o, n), 1
 static int r2(int c, char **v, char *o, int n) { return record(2, c, v, o, n), 102; }
 
 // command tables of 3 commands, some names being prefixes of others
-static const char *NAMES[4][3] = {{"a", "ab", "b"}, {"ab", "abb", "a"}, {"a/", ".", "\""}, {"ba", "\xE1", "a\xA0" "b"}};
+// table 1 holds a command name of 300 characters (set in build_tables)
+static const std::string LONGNAME = long_token(300);
+static const char *NAMES[4][3] = {{"a", "ab", "b"}, {"ab", nullptr, "a"}, {"a/", ".", "\""}, {"ba", "\xE1", "a\xA0" "b"}};
 enum
 {
     NTABLES = 4,
@@ -184,6 +186,7 @@ static void build_tables()
     if (done)
         return;
     done = true;
+    NAMES[1][1] = LONGNAME.c_str();
     int (*mf[3])(int, char **) = {m0, m1, m2};
     int (*rf[3])(int, char **, char *, int) = {r0, r1, r2};
     for (int t = 0; t < NTABLES; t++)
@@ -398,13 +401,53 @@ static void lines_run(uint64_t idx)
     }, false);
     vf::count_bulk(n, k);
     if (idx == 30 && vf::want_sample())
-        vf::sample("shell: every NUL-free line of length <= %d over the alphabet x 4 tables {a,ab,b},{ab,abb,a},{a/,.,\"},{ba,0xE1,a 0xA0 b} through "
+        vf::sample("shell: every NUL-free line of length <= %d over the alphabet x 4 tables {a,ab,b},{ab,<300 characters>,a},{a/,.,\"},{ba,0xE1,a 0xA0 b} through "
                    "mshell_execute, mshell_tables_execute, rshell_execute (dropargs 0/1), rshell_tables_execute, rshell_execute_v",
                    enum_maxlen(false));
 }
-static uint64_t rand_count() { return vf::thorough() ? 200000 : 5000; }
+static uint64_t rand_count() { return scaled(vf::thorough() ? 200000 : 5000); }
 #endif
 VF_SUITE(shell_lines, lines_count, lines_run)
+
+#ifndef C19_VALGRIND
+// long tokens and long command names (254..5000 characters) through the argv splitters and the dispatchers
+static uint64_t slong_count() { return 6 * 6; }
+static void slong_run(uint64_t idx)
+{
+    build_tables();
+    size_t L = LONG_LENS[idx % 6];
+    std::string t = long_token(L, (unsigned)idx), s;
+    switch ((idx / 6) % 6)
+    {
+    case 0:
+        s = t;
+        break;
+    case 1:
+        s = t + " " + long_token(L, 9) + "\t" + t;
+        break;
+    case 2:
+        s = "a " + t + "  b";
+        break;
+    case 3:
+        s = LONGNAME + (L % 2 ? " " + t : std::string());
+        break;
+    case 4:
+        s = (L % 2 ? LONGNAME.substr(0, 255) : LONGNAME + "l") + " " + t;
+        break;
+    default:
+        s = std::string(L, ' ') + "ab " + std::string(L, '\n') + t + std::string(L, '\r');
+    }
+    if (vf::verbose())
+        printf("  long line, token length %zu, %zu bytes: \"%s\"\n", L, s.size(), show(s).c_str());
+    check_split_cstr(s);
+    check_split_n(s);
+    check_split_n(s.substr(0, s.size() / 2) + std::string(1, '\0') + s.substr(s.size() / 2));
+    check_dispatch(s, idx);
+    VF_OK("long tokens / command names (254..5000 characters) through the argv splitters and dispatchers");
+    vf::count_case(vf::hash_bytes(s.data(), s.size()), true);
+}
+VF_SUITE(shell_long, slong_count, slong_run)
+#endif
 
 static void rand_run(uint64_t idx)
 {
@@ -456,6 +499,7 @@ void c19_shell_setup()
 #ifndef C19_VALGRIND
                           "argvc_internal_split_n == first argcmax white-space tokens of the sized text",
                           "argvc_internal_split_n: last token touches the end of the block",
+                          "long tokens / command names (254..5000 characters) through the argv splitters and dispatchers",
 #else
                           "memcheck silent during the dispatcher call",
 #endif
